@@ -5,7 +5,7 @@
    atomic section, so every concurrent history of producers and the consumer is some
    interleaving of these atomic operations; the theorems quantify over ALL operation sequences. *)
 From Coq Require Import ZArith List. Import ListNotations.
-From HS Require Import Base.Prelude EventLoop.QueueModel EventLoop.QueueProofs EventLoop.LoopModel EventLoop.LoopProofs.
+From HS Require Import Base.Prelude EventLoop.QueueModel EventLoop.QueueProofs EventLoop.LoopModel EventLoop.LoopProofs EventLoop.WakeModel EventLoop.WakeProofs.
 Open Scope Z_scope.
 
 (* ---- the ring buffer refines a bounded FIFO list, for every capacity >= 1 ---- *)
@@ -167,6 +167,45 @@ Print Assumptions C14_unregister_idempotent.
 Theorem C14_unregister_current_refuted : stale_demo unregister_current = [] /\ stale_demo unregister = [2%N].
 Proof. exact unregister_current_refuted. Qed.
 Print Assumptions C14_unregister_current_refuted.
+
+(* ---- the Run loop against concurrent producers: an added event is handled without waiting for a
+   further AddEvent.  Model (WakeModel.v): every interleaving [sched] of producer pushes and consumer
+   steps (pop / enter the select / wake up), with the repaired ready channel (one slot,
+   fixes/C14-ready-signal-not-lost.patch). ---- *)
+(* level-triggered wake-up: whenever an event is pending, the consumer is running or a token waits for it *)
+Theorem C14_wake_level_triggered : forall sched : list wstep,
+  let s := w_run true w_init sched in (w_pending s > 0)%nat -> w_pc s = Running \/ w_token s = true.
+Proof. exact wake_level_triggered. Qed.
+Print Assumptions C14_wake_level_triggered.
+
+(* ... so the consumer's next two steps handle a pending event: no further push is needed *)
+Theorem C14_wake_progress : forall sched : list wstep, let s := w_run true w_init sched in
+  (w_pending s > 0)%nat -> (w_handled (w_run true s [Cons; Cons]) > w_handled s)%nat.
+Proof. exact wake_progress. Qed.
+Print Assumptions C14_wake_progress.
+
+Theorem C14_wake_conservation : forall (b : bool) (sched : list wstep), let s := w_run b w_init sched in
+  (w_handled s + w_pending s)%nat = length (filter (fun x => match x with Push => true | Cons => false end) sched).
+Proof. exact wake_conservation. Qed.
+Print Assumptions C14_wake_conservation.
+
+(* the unbuffered channel of the tree before the fix: a push between the failed pop and the select is
+   lost; the consumer sleeps with an event pending, whatever it does itself, until another push arrives *)
+Theorem C14_wake_unbuffered_refuted :
+  let s := w_run false w_init [Cons; Push; Cons] in
+  w_pending s = 1%nat /\ w_handled s = 0%nat /\ cons_step s = None /\
+  (forall n, w_run false s (repeat Cons n) = s) /\
+  w_handled (w_run false s [Push; Cons; Cons]) = 2%nat.
+Proof. exact wake_unbuffered_refuted. Qed.
+Print Assumptions C14_wake_unbuffered_refuted.
+
+(* the queue side of it (compared with the real queue on every run): after a push, the next
+   non-blocking receive on ready() succeeds, whatever pops and len calls happen in between *)
+Theorem C14_signal_persists : forall (A : Type) (s : queue A * bool) (x : option A) (ops : list (sop A)),
+  forallb quiet ops = true ->
+  exists outs, s_run true s (SOp (QPush x) :: ops ++ [SPoll]) = outs ++ [SPolled true].
+Proof. exact (@signal_persists). Qed.
+Print Assumptions C14_signal_persists.
 
 (* non-vacuity of the loop theorems: capacity 2; handler 7 (prioritised, type 0) unregisters
    handler 5 during dispatch and defers an event; two events deferred on type 0; overflow *)
